@@ -1,2 +1,132 @@
--- placeholder driver (model for C16 not built yet)
-def main : IO Unit := pure ()
+/-
+  Driver for the daemon registry model (C16).
+    h <cfg> <nobj> <ncls> <n> {op}*n
+        cfg  = 5 chars 0/1: autoProxyChecksEntry identityUnpacksWeak refuseDaemonName unregChecksOwner finalizerChecksOwner
+        op   = R <ent> <idarg> <force 0|1> <weak 0|1> | U <target> | G <k> | F <target> | P <target> | C <id> | V <k> <ser> | L
+        ent  = o<k> | c<c>          id = D | n<k> | g<k> | r<k>   (r<k>: the (k mod #generated)-th generated id; n0 if none yet)
+        idarg = N | E | X | <id>    target = <ent> | <id> | N | X        ser = s | j | m
+      → r1;r2;…;rn | id=ref/w,… | o0:<pid>/<pdm> … c0:<pid>/<pdm> …
+        results: uri:<id> ok err:T|V|D|A proxy:<id>><call result> byvalue reached:D|o<k> inst:c<c> unknown deadweak ids:<id>,… collected kept dead
+-/
+import PyroModel.Registry
+import Driver.Util
+
+open Pyro Pyro.Registry Driver
+
+def idStr : Id → String
+  | .daemon => "D"
+  | .name n => s!"n{n}"
+  | .gen n => s!"g{n}"
+
+def entStr : Ent → String
+  | .obj k => s!"o{k}"
+  | .cls c => s!"c{c}"
+
+def refStr : Ref → String
+  | .daemonObj => "D"
+  | .ent e => entStr e
+
+def parseEnt (t : String) : Option Ent :=
+  if t.startsWith "o" then (t.drop 1).toNat?.map .obj
+  else if t.startsWith "c" then (t.drop 1).toNat?.map .cls
+  else none
+
+/-- ids are resolved against the number of ids generated so far (the harness does the same) -/
+def parseId (s : State) (t : String) : Option Id :=
+  if t == "D" then some .daemon
+  else if t.startsWith "n" then (t.drop 1).toNat?.map .name
+  else if t.startsWith "g" then (t.drop 1).toNat?.map .gen
+  else if t.startsWith "r" then
+    (t.drop 1).toNat?.map fun k => if s.next = 0 then .name 0 else .gen (k % s.next)
+  else none
+
+def parseIdArg (s : State) (t : String) : Option IdArg :=
+  if t == "N" then some .none else if t == "E" then some .empty else if t == "X" then some .nonStr
+  else (parseId s t).map .str
+
+def parseTarget (s : State) (t : String) : Option Target :=
+  if t == "N" then some .noneArg else if t == "X" then some .plain
+  else match parseEnt t with
+    | some e => some (.byObj e)
+    | none => (parseId s t).map .byId
+
+def parseSer (t : String) : Option Ser :=
+  if t == "s" then some .serpent else if t == "j" then some .json else if t == "m" then some .msgpack else none
+
+def parseCfg (t : String) : Option Cfg :=
+  match t.toList with
+  | [a, b, c, d, e] => some ⟨a == '1', b == '1', c == '1', d == '1', e == '1'⟩
+  | _ => none
+
+/-- one op from the token stream (needs the state for `r<k>` ids) -/
+def parseOp (s : State) : List String → Option (Op × List String)
+  | "R" :: e :: ia :: f :: w :: rest => do
+    let e ← parseEnt e
+    let ia ← parseIdArg s ia
+    pure (.register e ia (f == "1") (w == "1"), rest)
+  | "U" :: t :: rest => do pure (.unregister (← parseTarget s t), rest)
+  | "G" :: k :: rest => do pure (.gc (← k.toNat?), rest)
+  | "F" :: t :: rest => do pure (.uriFor (← parseTarget s t), rest)
+  | "P" :: t :: rest => do pure (.proxyFor (← parseTarget s t), rest)
+  | "C" :: i :: rest => do pure (.call (← parseId s i), rest)
+  | "V" :: k :: sr :: rest => do pure (.returnObj (← k.toNat?) (← parseSer sr), rest)
+  | "L" :: rest => some (.registered, rest)
+  | _ => none
+
+def errStr : Err → String
+  | .typeError => "T" | .valueError => "V" | .daemonError => "D" | .attributeError => "A"
+
+def resStr (s' : State) (viaWire : Bool) : Res → String
+  | .uri i => "uri:" ++ idStr i
+  | .ok => "ok"
+  | .err e => "err:" ++ errStr e
+  | .proxy i => if !viaWire then "proxy:" ++ idStr i else "proxy:" ++ idStr i ++ ">" ++ (match call s' i with
+      | .reached r => "reached:" ++ refStr r
+      | .inst c => s!"inst:c{c}"
+      | .unknownObject => "unknown"
+      | .deadWeak => "deadweak"
+      | _ => "?")
+  | .byValue => "byvalue"
+  | .reached r => "reached:" ++ refStr r
+  | .inst c => s!"inst:c{c}"
+  | .unknownObject => "unknown"
+  | .deadWeak => "deadweak"
+  | .ids l => "ids:" ++ ",".intercalate (l.map idStr)
+  | .collected => "collected"
+  | .kept => "kept"
+  | .dead => "dead"
+
+def runOps (cfg : Cfg) : Nat → State → List String → List String → Option (State × List String)
+  | 0, s, [], acc => some (s, acc.reverse)
+  | 0, _, _ :: _, _ => none
+  | n + 1, s, toks, acc =>
+    match parseOp s toks with
+    | none => none
+    | some (op, rest) =>
+      let (s', r) := step cfg s op
+      -- a proxy that arrived at the client (returned object) is followed by a call through it
+      let viaWire := match op with | .returnObj _ _ => true | _ => false
+      runOps cfg n s' rest (resStr s' viaWire r :: acc)
+
+def dmStr : DAttr → String
+  | .absent => "-" | .none => "none" | .this => "this"
+
+def attrStr (s : State) (e : Ent) : String :=
+  if isDead s e then entStr e ++ ":dead"
+  else entStr e ++ ":" ++ (match s.pid e with | some i => idStr i | none => "-") ++ "/" ++ dmStr (s.pdm e)
+
+def step' : List String → String
+  | "h" :: cfg :: nobj :: ncls :: n :: rest =>
+    match parseCfg cfg, nobj.toNat?, ncls.toNat?, n.toNat? with
+    | some cfg, some nobj, some ncls, some n =>
+      match runOps cfg n init rest [] with
+      | some (s, rs) =>
+        ";".intercalate rs ++ " | " ++
+        ",".intercalate (s.objs.map fun (i, en) => idStr i ++ "=" ++
+          (match deref s en with | some r => refStr r | none => "?deadref") ++ (if en.weak then "/w" else "/s")) ++ " | " ++
+        " ".intercalate ((List.range nobj).map (fun k => attrStr s (.obj k)) ++ (List.range ncls).map (fun c => attrStr s (.cls c)))
+      | none => "bad-op"
+    | _, _, _, _ => "bad-op"
+  | _ => "bad-op"
+
+def main : IO Unit := runDriver step'
